@@ -118,6 +118,16 @@ pub fn cases(tier: Tier) -> Vec<Case> {
             out.push(Case { program: prog.into(), bindings: bind(&["c"], &[&c]), key: format!("ternary-lazy:{}:{}", prog.replace(' ', ""), show_value(&c)), lenient_err: false });
         }
     }
+    // variables whose name only STARTS with an operator word (a dotted path, an underscore, a
+    // digit after it): whole names, never the operator followed by a rest
+    for w in ["in", "not", "OR", "AND", "beginWith", "endWith"] {
+        for name in [format!("{}.qty", w), format!("{}_qty", w), format!("{}1", w), format!("{}.a.b", w), format!("qty.{}", w)] {
+            let two = Value::Number(rust_decimal::Decimal::from(2));
+            for prog in [format!("{} * 5 + 1", name), format!("[{}, {}]", name, name), format!("1 + {}", name), format!("{} = {} + 1 ; {}", name, name, name)] {
+                out.push(Case { program: prog.clone(), bindings: vec![(name.clone(), two.clone())], key: format!("operator-word-prefix:{}:{}", w, prog.len()), lenient_err: false });
+            }
+        }
+    }
     out.extend(wide_cases());
     out.extend(deep_cases());
     // infix `not`: x not OP y is not(x OP y), for every calculating operator and operand pair
